@@ -104,6 +104,20 @@ CHECKS = {
         note="pairwise distinct leaf values make any cross-talk visible; simulation rows are checked on the collision bases only (C02 covers rows)",
         design="§4 C07",
     ),
+    "C10": dict(
+        engine="E1-family-explorer",
+        technique="exhaustive enumeration of rewritings (all state permutations, all choice permutations, function-dict orders, renamings, always-true constraint/filter over all subsets <= 2 of discrete variables, filter-as-constraint) of 15 base models; differential oracle between two real solutions mapped through the layout contract",
+        text="For 15 base models (continuous, fully discrete, stochastic and every Family_1 member that changes the variable set or the filter structure) every permutation of the state declaration order and of the choice order, rotations/reversal/sorted order of the functions dict, three renaming schemes (alphabetical order inverted, long names, shared prefixes), an always-true constraint and an always-true filter over every subset of at most two discrete variables, and every filter rewritten as a constraint are solved by the real code; the rewritten model's value of every state that remains in the space must equal the base model's value to 1e-12.",
+        note="differential (no reference values); arrays are mapped to named states through the layout contract checked by C05",
+        design="§4 C10",
+    ),
+    "C11": dict(
+        engine="E1-family-explorer",
+        technique="metamorphic relations between real solutions over the enumerated model family: affine utility transformation x beta alphabet, beta=0 vs last period of every shorter horizon, all horizon pairs for period-free models, all one-hot transition arrays vs deterministic lookup twin",
+        text="For every Family_1 model: (affine) utility replaced by a*u+b for three (a,b) and two betas (thorough: 4x4) must give a*V+b*sum beta^k in every state and period; (beta0) with beta=0 the period-t array must equal the last-period array of the horizon-(t+1) model for every t<4; (stationary) for period-free models all pairs of horizons in 1..4 must agree j periods before the end; (degenerate) for stochastic models every one-hot transition array (cap 12 quick / 64 thorough) must give the solution of the twin model whose transition is the deterministic lookup table. The thorough tier adds the affine law on three upstream test models at full size (100x500 grids), which no reference implementation could enumerate.",
+        note="no reference values; 1e-9 relative scaled by |a|+|b|+1",
+        design="§4 C11",
+    ),
 }
 
 NOT_APPLICABLE = {
